@@ -10,7 +10,7 @@ B       := build/$(TAG)/$(FLAVOUR)
 CXX := g++
 CC  := gcc
 COMMON := -g -fno-omit-frame-pointer -DHAVE_CONFIG_H -DCPPUTEST_VERIF_HOOKS -I$(REPO)/include -I$(B)/gen -w
-SAN    := -fsanitize=address,undefined -fno-sanitize-recover=undefined
+SAN    := -fsanitize=address,undefined -fno-sanitize=signed-integer-overflow,shift -fno-sanitize-recover=undefined
 
 FLAGS_asan    := -O1 $(SAN)
 FLAGS_noexc   := -O1 $(SAN) -fno-exceptions
@@ -32,8 +32,14 @@ endif
 LIBSRC := $(wildcard $(REPO)/src/CppUTest/*.cpp) $(wildcard $(REPO)/src/CppUTestExt/*.cpp) $(REPO)/src/Platforms/Gcc/UtestPlatform.cpp
 LIBOBJ := $(patsubst $(REPO)/src/%.cpp,$(B)/obj/%.o,$(LIBSRC))
 
-.PHONY: lib bin setup clean
+.PHONY: lib bin setup clean FORCE
 lib: $(B)/libcpputest.a
+
+# objects are rebuilt when the compiler flags change
+FLAGSIG := $(CXX) $(COMMON) | $(FL) | $(HFL)
+$(B)/flags.stamp: FORCE
+	@mkdir -p $(B); echo '$(FLAGSIG)' | cmp -s - $@ || echo '$(FLAGSIG)' > $@
+FORCE:
 
 $(B)/gen/generated/CppUTestGeneratedConfig.h:
 	@mkdir -p $(dir $@)
@@ -41,7 +47,7 @@ $(B)/gen/generated/CppUTestGeneratedConfig.h:
 	  '#define CPPUTEST_HAVE_FORK' '#define CPPUTEST_HAVE_WAITPID' '#define CPPUTEST_HAVE_KILL' '#define CPPUTEST_HAVE_PTHREAD_MUTEX_LOCK' \
 	  '#define CPPUTEST_HAVE_GETTIMEOFDAY' '#endif' > $@
 
-$(B)/obj/%.o: $(REPO)/src/%.cpp $(B)/gen/generated/CppUTestGeneratedConfig.h
+$(B)/obj/%.o: $(REPO)/src/%.cpp $(B)/gen/generated/CppUTestGeneratedConfig.h $(B)/flags.stamp
 	@mkdir -p $(dir $@)
 	$(CXX) $(COMMON) $(FL) -MMD -MP -c $< -o $@
 
@@ -60,11 +66,11 @@ $(B)/bin/$(CHECK): $(HOBJ) $(B)/libcpputest.a
 	$(CXX) $(FL) -o $@ $(HOBJ) $(B)/libcpputest.a -lpthread
 endif
 
-$(B)/hobj/%.o: checks/%.cpp $(B)/gen/generated/CppUTestGeneratedConfig.h $(wildcard engine/*.h)
+$(B)/hobj/%.o: checks/%.cpp $(B)/gen/generated/CppUTestGeneratedConfig.h $(wildcard engine/*.h) $(B)/flags.stamp
 	@mkdir -p $(dir $@)
 	$(CXX) $(COMMON) $(HFL) -std=gnu++17 -fno-access-control -Iengine -I$(REPO)/src -DVF_FLAVOUR=\"$(FLAVOUR)\" -MMD -MP -c $< -o $@
 
-$(B)/hobj/%.c.o: checks/%.c $(B)/gen/generated/CppUTestGeneratedConfig.h
+$(B)/hobj/%.c.o: checks/%.c $(B)/gen/generated/CppUTestGeneratedConfig.h $(B)/flags.stamp
 	@mkdir -p $(dir $@)
 	$(CC) $(COMMON) $(HFL) -Iengine -MMD -MP -c $< -o $@
 
